@@ -428,6 +428,10 @@ def _init_coherence_one(ctx: Ctx, prog: Program, a: InitAnalysis) -> None:
         zero = org is not None and org[1] == "numpy.zeros"
         if okk and zero:
             ctx.ok("R-INIT-COHERENCE", "triggers = zeros((shr_domain_nb, propagator_nb))")
+        elif not okk:
+            ctx.violation("R-INIT-COHERENCE", fn.path, "Problem.init", "triggers-extent", f"{fn.path}:{trg[0].line}",
+                          "the wake-up table must have shape (number of shared domains, number of constraints): the engine indexes its first axis with every "
+                          "shared-domain index a decision, a replayed alternative or a shaving probe touches (compiled code performs no bounds check)")
         else:
             ctx.violation("R-INIT-COHERENCE", fn.path, "Problem.init", "triggers-shape", f"{fn.path}:{trg[0].line}",
                           "the wake-up table must start as zeros of shape (number of shared domains, number of constraints)")
